@@ -57,6 +57,16 @@ def gen(tier, rng):
                     if tier == "quick" and flush == 0 and ao % 3: continue
                     add(api="deflate", inp=inp, level=level, wrap=[0, 1, 3][(level + flush) % 3], lbuf=3, table=[0, 1][ao % 2] if level == 0 else 0,
                         calls=[[n, ao, flush, 1 if flush == 0 else 0], [0, 1 << 16, flush, 1 if flush == 0 else 0]], tail_ai=n, tail_ao=1 << 16, cap=200, meta={"family": "stream-every-output-size", "cls": cls})
+    # end_of_stream announced late (the block header went out in a call with end_of_stream = 0, so the trailer has to add an empty final block):
+    # the call that reaches the trailer is offered every output size
+    for cls, n in [("text", 300), ("random", 150)] + ([("zeros", 400), ("records", 2000)] if tier == "thorough" else []):
+        inp = igz.corpus(rng, cls, n)
+        for level in range(4):
+            for ao in range(0, 100):
+                if tier == "quick" and level and (ao + level) % 2: continue
+                add(api="deflate", inp=inp, level=level, wrap=[0, 1, 3, 2, 4][(level + ao) % 5], lbuf=3, table=[0, 1, 2][ao % 3] if level == 0 else 0, mem=ao % 3,
+                    calls=[[n, [1 << 16, n // 3, 40][ao % 3], [0, 0, 1][(ao // 3) % 3], 0], [0, ao, 0, 1], [0, [1 << 16, 7, 100][ao % 3], 0, 1]], tail_ai=n, tail_ao=1 << 16, cap=300,
+                    meta={"family": "late-eos-output-sweep", "cls": cls})
     # streaming termination with end_of_stream set: any sequence of non-empty output buffers
     for cls, n in [("random", 700), ("text", 900), ("empty", 0), ("zeros", 5000)] + ([("random", 70000), ("records", 9000)] if tier == "thorough" else []):
         inp = igz.corpus(rng, cls, n)
